@@ -219,6 +219,21 @@ def testPoints (ks : List Rat) (withNan : Bool) : List Num :=
 def condEquivCheck (c1 c2 : Cond) (withNan : Bool) : Bool :=
   (testPoints (condConsts c1 ++ condConsts c2) withNan).all (fun y => raises c1 y == raises c2 y)
 
+/-- the three table-wide checks (run by the kernel on the regenerated table in `Props/C12.lean`) -/
+def withNanFor (e : Entry) : Bool := !nanSilent e.cls e.field
+
+def ctorSetterCheck (e : Entry) : Bool := condEquivCheck e.ctor e.setter (withNanFor e)
+
+def setterSpecCheck (e : Entry) : Bool :=
+  match specOf e.cls e.field with
+  | some r => condEquivCheck e.setter (rangeCond r) (withNanFor e)
+  | none => false
+
+def ctorSpecCheck (e : Entry) : Bool :=
+  match specOf e.cls e.field with
+  | some r => condEquivCheck e.ctor (rangeCond r) (withNanFor e)
+  | none => false
+
 /-! ## the loader's "exactly one" checks -/
 
 inductive Err | value | key
@@ -238,16 +253,36 @@ def countFails (op : String) (n : Nat) : Bool :=
 def countPresent (keys present : List String) : Nat := (keys.filter (present.contains ·)).length
 
 /-- `_build_configuration(dct)` up to the choice of builders: `present` = the keys of the YAML mapping.
-Returns the (mode key, detector key) whose builders run. -/
-def buildConfiguration (modeKeys detKeys : List String) (modeOp detOp : String) (present : List String) :
-    Except Err (String × String) :=
+`modeKeys / detKeys` are the lists the counts run over, `modeDispatch / detDispatch` the order of the
+`if "…" in dct … elif` chains, `modeOp / detOp` the comparison of each count with 1 — all six regenerated
+from the source.  Returns the (mode key, detector key) whose builders run. -/
+def buildConfiguration (modeKeys detKeys modeDispatch detDispatch : List String) (modeOp detOp : String)
+    (present : List String) : Except Err (String × String) :=
   if !present.contains "pipeline" then .error .key                      -- dct["pipeline"]
   else if countFails modeOp (countPresent modeKeys present) then .error .value
   else if countFails detOp (countPresent detKeys present) then .error .value
   else
-    match modeKeys.find? (present.contains ·), detKeys.find? (present.contains ·) with
+    match modeDispatch.find? (present.contains ·), detDispatch.find? (present.contains ·) with
     | some m, some d => .ok (m, d)
     | _, _ => .error .value                                             -- "No mode / detector configuration provided."
+
+/-- the documented keys -/
+def docModeKeys : List String := ["exposure", "observation", "calibration"]
+def docDetKeys : List String := ["ccd_detector", "cmos_detector", "mkid_detector", "apd_detector"]
+
+/-- **The statement**: a document is loaded iff it names exactly one running mode and exactly one detector
+(and a pipeline); the configuration then holds that mode and that detector. -/
+def specBuild (present : List String) : Except Err (String × String) :=
+  if !present.contains "pipeline" then .error .key
+  else
+    match docModeKeys.filter (present.contains ·), docDetKeys.filter (present.contains ·) with
+    | [m], [d] => .ok (m, d)
+    | _, _ => .error .value
+
+def sameResult : Except Err (String × String) → Except Err (String × String) → Bool
+  | .ok a, .ok b => a == b
+  | .error a, .error b => a == b
+  | _, _ => false
 
 /-! ## loading one section (geometry / environment / characteristics) -/
 
